@@ -40,6 +40,7 @@ network_branch_translators : dict[str, Callable[..., elm.NortenTheveninElement]]
 
 def load_network(network_dict: list[dict[str, Any]]) -> Network:
     def entry_to_branch(entry: dict[str, Any]) -> Branch:
+        entry = dict(entry) # the keys are consumed below; never edit the caller's description
         n1 = entry.pop('N1')
         n2 = entry.pop('N2')
         entry['name'] = entry.pop('id')
